@@ -236,6 +236,25 @@ def run(ctx):
     chk.ob("gate/micr-writers", not mstray and bool(mw), "MICR is written only by Bus::write and the resets",
            "writers of Bus::micr", "other writers: %s" % mstray)
 
+    # "the program has enabled it": a store to 0xF9 leaves the key-edge enable exactly as bit 0 of the stored byte says, whatever
+    # the other bits of the byte are (bits 6 and 7 have no meaning in the MICR; a byte with them set still enables the key)
+    from .. import shapes as shapes_
+    bad_en = []
+    for b_ in range(256):
+        Iw = absint.Interp(p)
+        stw = absint.State()
+        busv = shapes_.build(p, "L::machine::bus::Bus", shapes_.top_leaf, (), {})
+        bw = Iw.new_alloc(stw, "bus", busv)
+        Iw.events.clear()
+        Iw.run_body(p.need_body("L::machine::bus::Bus::write"), [Ref(bw, (), True), 0xF9, b_], stw, 0)
+        en_ = Iw.run_body(p.need_body("L::machine::bus::Bus::is_key_edge_int_enabled"), [Ref(bw, (), False)], stw, 0)
+        evw = [repr(e)[:80] for e in Iw.events if e.kind in step.BAD_EVENTS and not e.in_log][:1]
+        if en_ not in (b_ & 1, bool(b_ & 1)) or isinstance(en_, frozenset) or evw:
+            bad_en.append("after storing %#04x: enabled = %r %s" % (b_, en_, evw))
+    chk.ob("gate/enable-store", not bad_en,
+           "after a program's store of byte b to 0xF9 the key interrupt is enabled exactly when bit 0 of b is set (all 256 bytes)",
+           "bus.rs Bus::write / Bus::is_key_edge_int_enabled", "; ".join(bad_en[:3]) or "256 bytes",
+           "constant propagation through Bus::write(0xF9, b) and the enable test on a bus with unknown contents")
     # ---- 2. entry routine on every interrupted path of every form ---------------------------
     nforms = 0
     npaths = 0
